@@ -95,14 +95,16 @@ func init() {
 // and the next sender blocks forever.
 const kfMonitorStopped = "api-call-after-monitor-stopped:AutoReconnect=false:client_sub.go:resumech/pausech"
 
-// kfDeadConn (proposed KF-C27-1): a connection loss or failing request that
-// arrives while Client.monitor is still restoring subscriptions after a
-// previous reconnect is lost: the failed recreate only continues the range
-// loop, the monitor reports Connected and discards the error of the broken
-// connection when it "clears sechan errors from reconnection". The client
-// stays Connected on a dead connection for ever. While the finding is open the
-// script does not inject a second fault before the reconnect that the first
-// one caused has finished (DESIGN 3.5: excluded by construction).
+// kfDeadConn: a connection loss or failing request that arrives while
+// Client.monitor is still restoring subscriptions after a previous reconnect
+// used to be lost (the monitor discarded the error of the broken connection
+// when it "clears sechan errors from reconnection") and left the client
+// Connected on a dead connection for ever. /repo commit e25d395 (found by C25)
+// repaired that, so no finding with this id is open and faults are injected at
+// any moment. Should a finding KF-C27-1 with this signature be opened again,
+// the script defers a second fault until the reconnect caused by the first one
+// has finished (DESIGN 3.5: excluded by construction) and a failure with this
+// signature is attributed to it.
 const (
 	kfDeadConn   = "fault-during-reconnect:Connected-on-dead-connection:client.go:monitor-clears-sechanErr"
 	kfDeadConnID = "KF-C27-1"
@@ -940,7 +942,7 @@ func execute(c Case) (res result, err error) {
 
 	stoppedEarly := false
 	for i, a := range c.Actions {
-		if !c.AutoReconnect && cl.State() == opcua.Closed {
+		if !c.AutoReconnect && cl.State() == opcua.Closed && os.Getenv("VERIF_C27_DEV_NO_CUT") == "" {
 			// the connection monitor has stopped and told the application "Closed":
 			// a caller is not expected to go on using the client (KF-C21-1 covers
 			// the calls that are made nevertheless)
